@@ -63,7 +63,8 @@ Record layout := {
   l_mfdir : bool;         (* <Dir>/magefiles is a directory *)
   l_plain : bool;         (* Dir itself also holds magefiles (then the magefiles directory is not used) *)
   l_cache_env : string;   (* MAGEFILE_CACHE, "" when unset *)
-  l_home : string }.      (* HOME *)
+  l_home : string;        (* HOME, "" when unset or empty (os.Getenv) *)
+  l_tmp : string }.       (* os.TempDir(): $TMPDIR, "/tmp" when that is unset or empty *)
 
 (* Invoke 319-347 *)
 Definition dir0 (l : layout) : path := parse_path (if String.eqb (l_d l) "" then "." else l_d l).
@@ -72,9 +73,12 @@ Definition magefiles_dir (l : layout) : path := join2 (dir0 l) (parse_path "mage
 Definition mage_dir (l : layout) : path :=
   if l_mfdir l then (if l_plain l then dir0 l else magefiles_dir l) else dir0 l.
 
-(* mg.CacheDir (runtime.go:105-116, not windows) *)
+(* mg.CacheDir (runtime.go:102-122, not windows) *)
 Definition cache_dir_env (l : layout) : path :=
-  if String.eqb (l_cache_env l) "" then join2 (parse_path (l_home l)) (parse_path ".magefile")
+  if String.eqb (l_cache_env l) "" then
+    (* MAGEFILE_CACHE unset OR EMPTY (os.Getenv cannot tell): the default directory *)
+    if String.eqb (l_home l) "" then join2 (parse_path (l_tmp l)) (parse_path ".magefile")     (* since commit 293a481 *)
+    else join2 (parse_path (l_home l)) (parse_path ".magefile")
   else parse_path (l_cache_env l).
 
 (* Invoke 349-357.  [fixed = false] is the tree before commit b55412e (no filepath.Abs) *)
